@@ -928,9 +928,9 @@ func AutonameAcrossPasses() []*Case {
 	typs := []TypeSpec{{Go: "*A", Wire: "(p (nm 0 A (st int)))", Decl: decl}, {Go: "*B", Wire: "(p (nm 0 B (st string)))", Decl: decl}}
 	raw := "package p\n\nfunc Third(b *B) bool { return deriveEqual(deriveClone(b), deriveClone(b)) }\n"
 	var out []*Case
-	// (the file of the waiting call sorts AFTER the plain calls; the other order is defect N2 in
-	// .work/new-defects-names.md and is kept out until it is repaired or listed)
-	for i, fname := range []string{"w_third.go", "x_third.go"} {
+	// the file of the waiting call sorts before (67eda32: the renamed call is met first in the later pass) or
+	// after the file of the plain calls
+	for i, fname := range []string{"0_third.go", "w_third.go"} {
 		out = append(out, &Case{ID: fmt.Sprintf("pa%d", i), Stream: "pending", Types: typs, Plugins: Plugins("derive", nil),
 			Variants: AllVariants, NoModel: true, OtherFile: "z_other.go",
 			Files: []FileSpec{{Name: "a.go", Calls: []CallSpec{Call("equal", "deriveEqual", 0), Call("equal", "deriveEqual", 1)}}},
@@ -970,5 +970,54 @@ func ChanC11(r *rand.Rand) []*Case {
 		}
 	}
 	rec(nil)
+	return out
+}
+
+// StaleC11: an old derived.gen.go already declares deriveEqual for *A; the package now also uses the name
+// for *B in a call whose arguments are only typed after a first pass (deriveEqual(deriveClone(b), …)).
+// One name, two type lists: a conflict whatever the old file says.
+func StaleC11() []*Case {
+	decl := "type A struct{ X int }\n\ntype B struct{ Y string }"
+	typs := []TypeSpec{{Go: "*A", Wire: "(p (nm 0 A (st int)))", Decl: decl}, {Go: "*B", Wire: "(p (nm 0 B (st string)))", Decl: decl}}
+	stale := "// Code generated by goderive DO NOT EDIT.\n\npackage p\n\n// deriveEqual returns whether this and that are equal.\nfunc deriveEqual(this, that *A) bool {\n\treturn (this == nil && that == nil) ||\n\t\tthis != nil && that != nil &&\n\t\t\tthis.X == that.X\n}\n"
+	raw := "package p\n\nfunc Third(b *B) bool { return deriveEqual(deriveClone(b), deriveClone(b)) }\n"
+	var out []*Case
+	for i, fname := range []string{"0_third.go", "w_third.go"} {
+		for j, withStale := range []bool{true, false} {
+			extra := map[string]string{"p/" + fname: raw}
+			if withStale {
+				extra["p/derived.gen.go"] = stale
+			}
+			out = append(out, &Case{ID: fmt.Sprintf("st%d%d", i, j), Stream: "pending", Types: typs, Plugins: Plugins("derive", nil),
+				Variants: AllVariants, NoModel: true, OtherFile: "z_other.go",
+				Files:      []FileSpec{{Name: "a.go", Calls: []CallSpec{Call("equal", "deriveEqual", 0)}}},
+				ExtraCalls: []CallSpec{Call("equal", "deriveEqual", 1)}, Extra: extra})
+		}
+	}
+	return out
+}
+
+// TwoPackagesC11: goderive ./p ./q in one invocation: p has a conflict that -autoname resolves by renaming
+// deriveEqual to deriveEqual_; q's only clash is the duplicate pair (deriveEqual_, deriveEqual) for one type
+// list, in both orders — or q is clash-free. The record of renames of p must not make q's duplicate pass.
+func TwoPackagesC11() []*Case {
+	typs := C11Types
+	plugins := Plugins("derive", nil)
+	var out []*Case
+	confl := []CallSpec{Call("equal", "deriveEqual", 0), Call("equal", "deriveEqual", 1)}
+	plain := []CallSpec{Call("equal", "deriveEqual", 0)}
+	for _, pcalls := range [][]CallSpec{confl, plain} {
+		for k := 0; k < 3; k++ {
+			for _, q := range [][]CallSpec{
+				{Call("equal", "deriveEqual_", k), Call("equal", "deriveEqual", k)},
+				{Call("equal", "deriveEqual", k), Call("equal", "deriveEqual_", k)},
+				{Call("equal", "deriveEqual_", k)},
+			} {
+				out = append(out, &Case{ID: fmt.Sprintf("tp%d", len(out)), Stream: "twopkg", Types: typs, Plugins: plugins,
+					Variants: AllVariants, NoModel: true, OtherFile: "z_other.go",
+					Files: []FileSpec{{Name: "a.go", Calls: pcalls}}, Pkg2: []FileSpec{{Name: "a.go", Calls: q}}})
+			}
+		}
+	}
 	return out
 }
